@@ -267,6 +267,16 @@ theorem projective_position_bound_partial (X Wn : Int) (hw : roundHalfUp Wn 6553
 
 example : roundHalfUp (3 * 4294967296 + 7) 65536 ≠ 0 := by decide
 
+/-- PARTIAL (approximation only), sharper form for `|w| ≥ 1.0` (every non-degenerate projective map after
+    normalising the bottom row): `2·|x0·Wn − 65536·X| ≤ 3·|Wn| + 65536·|x0| + 98304`, i.e. the quotient is within
+    `3/2 + |x0|·32768/|Wn| + 49152/|Wn|` units of 1/65536 pixel of the exact position — for a position of `P`
+    pixels about `1.5 + P/(2·W)` units, `W = Wn/2^32` the exact homogeneous coordinate.  Gap as for
+    `projective_position_bound_partial`. -/
+theorem projective_position_units_partial (X Wn : Int) (hw : 65536 ≤ abs (roundHalfUp Wn 65536)) :
+    2 * abs (Int.tdiv (roundHalfUp X 65536 * 65536) (roundHalfUp Wn 65536) * Wn - 65536 * X) ≤
+      3 * abs Wn + 65536 * abs (Int.tdiv (roundHalfUp X 65536 * 65536) (roundHalfUp Wn 65536)) + 98304 :=
+  position_bound_units X Wn hw
+
 /-! ### specialised loops (coordinate arithmetic only) -/
 
 /-- PARTIAL: the scaled-NEAREST main loops (`FAST_NEAREST_MAINLOOP`, COVER/NONE/PAD) subtract
